@@ -308,6 +308,14 @@ fn api_lines(args: &[String]) {
         n += 1;
         if let Err(e) = lines_one(&doc) { println!("FAIL {} :: document {}", e, hex(&doc)); return; }
         if mutate {
+            // a long comment / a long run of blanks / many empty lines between the xml header and the root element
+            if let Some(p) = doc.windows(2).position(|w| w == b"?>") {
+                for filler in [format!("<!--{}-->", "x".repeat(5000)), " ".repeat(5000), "\n".repeat(5000), format!("<!--{}-->\n", "y".repeat(90)).repeat(60)] {
+                    let mut m = doc[..p + 2].to_vec(); m.extend_from_slice(filler.as_bytes()); m.extend_from_slice(&doc[p + 2..]);
+                    n += 1;
+                    if let Err(e) = lines_one(&m) { println!("FAIL {} :: document {}", e, hex(&m)); return; }
+                }
+            }
             for i in 0..doc.len() {
                 let mut m = doc.clone(); m.remove(i);
                 n += 1;
